@@ -70,14 +70,14 @@ Definition pinv (s : wst) (g : gst) : Prop :=
   (g_sent g = true -> w_header s = g_chdr g) /\ w_trailer s = [].
 
 Lemma post_equal : forall sh l s g half,
-  pinv s g -> w_half s = half ->
+  pinv s g -> w_half s = half -> g_half g = half ->
   wf_post sh half l = true -> post_sets_trailer l = false ->
   w_obs fx_now sh (mkWR s false false) l = g_steps sh g l.
 Proof.
-  intros sh l. induction l as [|st rest IH]; intros s g half Hinv Hhalf Hwf Hpt.
+  intros sh l. induction l as [|st rest IH]; intros s g half Hinv Hhalf Hghalf Hwf Hpt.
   - discriminate.
   - destruct s as [wh ws wt wc we wx whf], g as [gh gs gt gc ghf gr go].
-    unfold pinv in Hinv. cbn in Hinv. destruct Hinv as (? & Hx & ? & ? & Hh & ?). cbn in Hhalf. subst.
+    unfold pinv in Hinv. cbn in Hinv. destruct Hinv as (? & Hx & ? & ? & Hh & ?). cbn in Hhalf, Hghalf. subst.
     assert (Hgone : forall h s' t, w_gone (mkW h s' t false we wx half) = true).
     { intros. unfold w_gone, w_cancelled. cbn. destruct wx; [discriminate | reflexivity | reflexivity]. }
     assert (Hdone : forall h s' t, w_done (mkW h s' t false we wx half) = true).
@@ -87,29 +87,29 @@ Proof.
     + (* S2C: SendMsg on the finished call *)
       cbn in Hwf. split_and. cbn in Hpt.
       cbn [w_step wr_over wr_s]. rewrite Hgone. cbn.
-      erewrite IH; [reflexivity | | reflexivity | eassumption | exact Hpt].
+      erewrite IH; [reflexivity | | reflexivity | reflexivity | eassumption | exact Hpt].
       unfold pinv; cbn; repeat split; auto.
     + (* SetH *)
       cbn in Hwf. cbn in Hpt.
       cbn [w_step wr_over wr_s]. rewrite Hgone.
       destruct (md_empty h) eqn:Hh0; [|destruct gs]; cbn; rewrite ?Hh0; cbn;
-        (erewrite IH; [reflexivity | | reflexivity | exact Hwf | exact Hpt]);
+        (erewrite IH; [reflexivity | | reflexivity | reflexivity | exact Hwf | exact Hpt]);
         unfold pinv; cbn; repeat split; auto; discriminate.
     + (* SendH: the context is looked at first, nothing is published *)
       cbn in Hwf. cbn in Hpt.
       cbn [w_step wr_over wr_s]. rewrite Hgone.
       unfold w_SendHeader. cbn [fx_sendh_done fx_now andb]. rewrite Hdone. cbn.
-      erewrite IH; [reflexivity | | reflexivity | exact Hwf | exact Hpt].
+      erewrite IH; [reflexivity | | reflexivity | reflexivity | exact Hwf | exact Hpt].
       unfold pinv; cbn; repeat split; auto.
     + (* SetT: only empty metadata *)
       cbn in Hwf. cbn in Hpt. apply orb_false_iff in Hpt. destruct Hpt as [Ht Hpt].
       apply negb_false_iff in Ht. destruct t; [|discriminate].
-      cbn. erewrite IH; [reflexivity | | reflexivity | exact Hwf | exact Hpt].
+      cbn. erewrite IH; [reflexivity | | reflexivity | reflexivity | exact Hwf | exact Hpt].
       unfold pinv; cbn; repeat split; auto.
-    + (* RecvEOF: a RecvMsg that fails *)
+    + (* RecvEOF: a RecvMsg that fails, with the context's error *)
       cbn in Hwf. split_and. subst. cbn in Hpt.
       cbn [w_step wr_over wr_s]. rewrite Hgone. cbn.
-      erewrite IH; [reflexivity | | reflexivity | eassumption | exact Hpt].
+      erewrite IH; [destruct wx; [discriminate | reflexivity | reflexivity] | | reflexivity | reflexivity | eassumption | exact Hpt].
       unfold pinv; cbn; repeat split; auto.
     + (* Ret *)
       cbn in Hwf. split_and. destruct rest; try discriminate.
@@ -181,7 +181,7 @@ Proof.
       destruct gt; try discriminate.
       assert (Hpost : w_obs fx_now sh (mkWR (set_ctx (ctx_of dl) (mkW (if sent then gc else gh) sent [] false we CtxLive half)) false false) rest
                       = g_steps sh (mkG gh sent [] gc half None true) rest).
-      { eapply post_equal; [ | reflexivity | eassumption | exact Hpt].
+      { eapply post_equal; [ | reflexivity | reflexivity | eassumption | exact Hpt].
         unfold pinv. destruct dl, sent; cbn; repeat split; auto; discriminate. }
       destruct dl, sh, sent; cbn in *; rewrite Hpost; reflexivity.
     + (* Cancel *)
@@ -480,7 +480,7 @@ Proof. intro o. destruct (unwrap_is_plain o) as [i ->]. reflexivity. Qed.
 Theorem judge_complete : forall c,
   agrees c = true -> C13_guard c = true -> C13_known c = None -> C13_ok c = true.
 Proof.
-  intros [sc tw tg | m via cw cg | m a b cw | k rw rg | ids leaf got] Ha Hg Hk; cbn in *.
+  intros [sc tw tg | m via cw cg | m a b cw | k rw rg | ids leaf got | id sc ex tg] Ha Hg Hk; cbn in *.
   - apply andb_prop in Ha. destruct Ha as [H1 H2].
     apply transcript_eqb_eq in H1, H2. subst.
     assert (Hnk : no_known sc = true) by (unfold no_known; rewrite Hk; reflexivity).
@@ -501,6 +501,7 @@ Proof.
     destruct k, rw, rg; cbn in H1, H2; try discriminate; try reflexivity.
     apply Z.eqb_eq in H1, H2. subst. reflexivity.
   - apply Z.eqb_eq in Ha. subst got. rewrite unwrap_chain. cbn. apply Z.eqb_refl.
+  - apply transcript_eqb_eq in Ha. apply transcript_eqb_eq in Hg. subst tg. rewrite Hg. apply transcript_eqb_refl.
 Qed.
 
 Corollary judge_zero : forall c,
